@@ -12,7 +12,7 @@ use barter_data::{
     Identifier,
     books::{Level, OrderBook},
     error::DataError,
-    event::{MarketEvent, MarketIter},
+    event::{DataKind, MarketEvent, MarketIter},
     exchange::{
         Connector,
         binance::{
@@ -193,11 +193,47 @@ fn fmt_levels(ls: &[Level]) -> String {
         .join(" ")
 }
 
-trait Obs {
+trait Obs: Sized {
     fn obs(&self, out: &mut Vec<String>);
+    /// the accessor of `MarketEvent<_, DataKind>` that belongs to this kind
+    fn from_dk(dk: &MarketEvent<usize, DataKind>) -> Option<MarketEvent<&usize, &Self>>;
+}
+
+/// The event as consumers of combined streams see it (`DynamicStreams::select_all`, `MultiStreamBuilder`):
+/// converted to `MarketEvent<_, DataKind>` by the real `From` impl; `dk <kind_name> 1` iff exactly the accessor
+/// of its own kind answers and hands back the same key, exchange, times and payload.
+fn dk_line<T: Obs + Clone>(ev: &MarketEvent<usize, T>) -> String
+where
+    MarketEvent<usize, DataKind>: From<MarketEvent<usize, T>>,
+{
+    let dk: MarketEvent<usize, DataKind> = ev.clone().into();
+    let answering = [
+        dk.as_public_trade().is_some(),
+        dk.as_order_book_l1().is_some(),
+        dk.as_order_book().is_some(),
+        dk.as_candle().is_some(),
+        dk.as_liquidation().is_some(),
+    ]
+    .iter()
+    .filter(|b| **b)
+    .count();
+    let same = T::from_dk(&dk).is_some_and(|back| {
+        let (mut a, mut b) = (vec![], vec![]);
+        ev.kind.obs(&mut a);
+        back.kind.obs(&mut b);
+        a == b
+            && *back.instrument == ev.instrument
+            && back.exchange == ev.exchange
+            && back.time_exchange == ev.time_exchange
+            && back.time_received == ev.time_received
+    });
+    format!("dk {} {}", dk.kind.kind_name(), (answering == 1 && same) as u8)
 }
 
 impl Obs for PublicTrade {
+    fn from_dk(dk: &MarketEvent<usize, DataKind>) -> Option<MarketEvent<&usize, &Self>> {
+        dk.as_public_trade()
+    }
     fn obs(&self, out: &mut Vec<String>) {
         out.push(format!(
             "trade {} {} {}",
@@ -210,6 +246,9 @@ impl Obs for PublicTrade {
 }
 
 impl Obs for OrderBookL1 {
+    fn from_dk(dk: &MarketEvent<usize, DataKind>) -> Option<MarketEvent<&usize, &Self>> {
+        dk.as_order_book_l1()
+    }
     fn obs(&self, out: &mut Vec<String>) {
         out.push(format!(
             "l1 {} {}",
@@ -220,6 +259,9 @@ impl Obs for OrderBookL1 {
 }
 
 impl Obs for OrderBookEvent {
+    fn from_dk(dk: &MarketEvent<usize, DataKind>) -> Option<MarketEvent<&usize, &Self>> {
+        dk.as_order_book()
+    }
     fn obs(&self, out: &mut Vec<String>) {
         let book: &OrderBook = match self {
             OrderBookEvent::Snapshot(b) | OrderBookEvent::Update(b) => b,
@@ -233,6 +275,9 @@ impl Obs for OrderBookEvent {
 }
 
 impl Obs for Liquidation {
+    fn from_dk(dk: &MarketEvent<usize, DataKind>) -> Option<MarketEvent<&usize, &Self>> {
+        dk.as_liquidation()
+    }
     fn obs(&self, out: &mut Vec<String>) {
         out.push(format!(
             "liq {} {} {}",
@@ -243,7 +288,10 @@ impl Obs for Liquidation {
     }
 }
 
-fn emit<T: Obs>(results: Vec<Result<MarketEvent<usize, T>, DataError>>, out: &mut Vec<String>) {
+fn emit<T: Obs + Clone>(results: Vec<Result<MarketEvent<usize, T>, DataError>>, out: &mut Vec<String>)
+where
+    MarketEvent<usize, DataKind>: From<MarketEvent<usize, T>>,
+{
     out.push(format!("nev {}", results.len()));
     for r in results {
         match r {
@@ -255,6 +303,7 @@ fn emit<T: Obs>(results: Vec<Result<MarketEvent<usize, T>, DataError>>, out: &mu
                     ev.time_exchange.timestamp_millis()
                 ));
                 ev.kind.obs(out);
+                out.push(dk_line(&ev));
             }
             Err(DataError::Socket(text)) => {
                 // `DataError::from(SocketError::Unidentifiable(id))` keeps only the message text
@@ -303,7 +352,8 @@ fn run_stateless<E, K, I>(map: &Map<usize>, json: &str, out: &mut Vec<String>)
 where
     E: Connector + Send,
     K: SubscriptionKind + Send,
-    K::Event: Obs,
+    K::Event: Obs + Clone,
+    MarketEvent<usize, DataKind>: From<MarketEvent<usize, K::Event>>,
     I: Identifier<Option<SubscriptionId>> + DeserializeOwned,
     MarketIter<usize, K::Event>: From<(ExchangeId, usize, I)>,
 {
